@@ -276,6 +276,7 @@ theorem step_sound (E : Env S) (g g' : Gen S) (out : Option Prog) (h : step E g 
     dsimp only at h
     split at h
     · split at h
+      all_goals (repeat' (split at h))
       all_goals
         simp only [Option.some.injEq, Prod.mk.injEq] at h; obtain ⟨rfl, rfl⟩ := h
         exact ⟨⟨hi.st, trivial⟩, by simp⟩
